@@ -36,6 +36,11 @@ def gen(rng, i, tier):
         per = rng.integers(1, 4, nb + 1)
         x = np.concatenate([g + rng.uniform(0, xdiv, p) for g, p in zip(grid, per)] + [grid[:1], [xmax]])
         x = np.concatenate([x, rng.uniform(xmin - 1, xmin - 1e-3, 3), rng.uniform(xmax + 1e-3, xmax + 1, 3)])
+    if not onnodes and rng.random() < 0.12:
+        # exactly as many points as grid nodes, first and last on the grid, interior irregular: not "data already on the grid"
+        x = grid.copy()
+        x[1:-1] = x[1:-1] + rng.uniform(-0.45, 0.45, len(x) - 2) * xdiv
+        xmax = float(grid[-1])
     dups = False
     if rng.random() < 0.25 and len(x) > 3:
         # bit-identical repeated abscissae (two runs on the same grid concatenated): every point counts
